@@ -133,3 +133,19 @@ Theorem C13_foreign_secret_never_restores_partial :
     hidden K2 (hidden K1 t) <> t.
 Proof. exact foreign_unmask_differs. Qed.
 Print Assumptions C13_foreign_secret_never_restores_partial.
+
+(* ---- translator tie: the definition generated from the current source of
+   session.hidden (gen/HiddenGen.v, by harness/py2v_hidden.py) is the model.
+   H = sha512(..).digest(), E = str.encode("utf-8") (None: lone surrogate);
+   K is the key the Python computes from the password (bytes are hashed as
+   they are, str is encoded first), x the bytes of the text. *)
+Require Import PW.lib.Py PW.lib.PyBytes PW.gen.HiddenGen PW.proofs.HiddenGenEq.
+
+Theorem C13_generated_hidden_is_model :
+  forall (H : list Z -> list Z) (E : list Z -> option (list Z))
+         (text passwd : pv) (K x : list Z),
+    key_of H E passwd = Some K -> text_of E text = Some x ->
+    K <> [] -> Forall byte K -> Forall byte x ->
+    gen_hidden H E text passwd = Py.Ok (PBytes (hidden K x)).
+Proof. exact gen_hidden_is_model. Qed.
+Print Assumptions C13_generated_hidden_is_model.
